@@ -331,8 +331,10 @@ func ParseTokenParam(buf []byte, offs int, param *PTokParam,
 					// found new space separated token after param name
 					// e.g.: foo;p1 bar => consider bar new param
 					param.state = paramFIN
-					// return separator pos (as expected)
-					if i >= offs+1 {
+					// return separator pos (as expected), if there is one
+					// (it is missing if the token follows a closing quote)
+					if i >= 1 && (buf[i-1] == ' ' || buf[i-1] == '\t' ||
+						buf[i-1] == '\r' || buf[i-1] == '\n') {
 						return i - 1, ErrHdrOk
 					} else {
 						return i, ErrHdrOk
@@ -480,8 +482,10 @@ func ParseTokenParam(buf []byte, offs int, param *PTokParam,
 					// found new space separated token after param value
 					// e.g.: foo;p1=5 bar =>  consider bar new param
 					param.state = paramFIN
-					// return separator pos (as expected)
-					if i >= offs+1 {
+					// return separator pos (as expected), if there is one
+					// (it is missing if the token follows a closing quote)
+					if i >= 1 && (buf[i-1] == ' ' || buf[i-1] == '\t' ||
+						buf[i-1] == '\r' || buf[i-1] == '\n') {
 						return i - 1, ErrHdrOk
 					} else {
 						return i, ErrHdrOk
